@@ -113,7 +113,6 @@ func runC03(c *core.Ctx) {
 			continue
 		}
 		for i, s := range callsIn(f, "ssv/protocol/v2/ssv/runner.BaseRunner.signBeaconObject") {
-			a := c.E.Analyze(s.Fn)
 			args := s.Instr.Common().Args
 			if len(args) != 5 {
 				c.Undischarged("C03-R3", fmt.Sprintf("%s.ProcessConsensus|sign#%d", t, i+1), "signBeaconObject no longer has (runner, obj, slot, domain) parameters")
@@ -123,13 +122,13 @@ func runC03(c *core.Ctx) {
 				name string
 				idx  int
 			}{{"object", 2}, {"slot", 3}} {
-				n := a.D.D(args[which.idx])
+				n := s.Arg(c, which.idx)
 				ok, why := rootedInDecided(n)
 				c.Decide(ok, "C03-R3", fmt.Sprintf("%s.ProcessConsensus|sign#%d|%s", t, i+1, which.name), c.P.Pos(s.Instr.Pos()),
 					"slices back to the decided value: "+clip(n.String()),
 					fmt.Sprintf("the %s signed after consensus is not derived from the decided value only: %s (%s)", which.name, clip(n.String()), why))
 			}
-			dn := a.D.D(args[4]).String()
+			dn := s.Arg(c, 4).String()
 			c.Decide(dn == "global:ssv-spec/types."+dom, "C03-R4", fmt.Sprintf("%s.ProcessConsensus|sign#%d|domain", t, i+1), c.P.Pos(s.Instr.Pos()),
 				dn, fmt.Sprintf("post-consensus signature of %s uses domain %s, table says %s", t, dn, dom))
 		}
@@ -154,19 +153,18 @@ func runC03(c *core.Ctx) {
 			c.Undischarged("C03-R4", t+".executeDuty|sign", "no signing call found where the table expects one")
 		}
 		for i, s := range sites {
-			a := c.E.Analyze(s.Fn)
 			args := s.Instr.Common().Args
 			if len(args) != 5 {
 				continue
 			}
-			dn := a.D.D(args[4]).String()
+			dn := s.Arg(c, 4).String()
 			c.Decide(dn == "global:ssv-spec/types."+dom, "C03-R4", fmt.Sprintf("%s.executeDuty|sign#%d|domain", t, i+1), c.P.Pos(s.Instr.Pos()),
 				dn, fmt.Sprintf("pre-consensus signature of %s uses domain %s, table says %s (a consensus-object domain here would sign duty data without a decision)", t, dn, dom))
-			sn := a.D.D(args[3]).String()
+			sn := s.Arg(c, 3).String()
 			c.Decide(sn == "p2.Slot", "C03-R4", fmt.Sprintf("%s.executeDuty|sign#%d|slot", t, i+1), c.P.Pos(s.Instr.Pos()),
 				"slot argument is the started duty's slot", "pre-consensus proof is not bound to the started duty's slot: "+sn)
 			if slotBoundProofs[t] {
-				on := a.D.D(args[2])
+				on := s.Arg(c, 2)
 				c.Decide(strings.Contains(on.String(), "p2.Slot"), "C03-R4", fmt.Sprintf("%s.executeDuty|sign#%d|object", t, i+1), c.P.Pos(s.Instr.Pos()),
 					clip(on.String()), "slot-bound proof object is not computed from the started duty's slot: "+clip(on.String()))
 			}
